@@ -30,7 +30,9 @@ FIX_COMMITS = ['c5b9684 (C05 DataReader EOD==0)', 'c3bb002 (C17 ESC prefix on 1x
                '106ab19 (C13 bounce embeds the 7-bit converted message)', '3059694 (C18 socket error during the header read escapes)', '735dfbb (C12 scheduler sleeps by a stale clock reading)',
                'ebf8fef (C03 enqueue() re-attempts a message the scheduler already handled)',
                '925db17 (C06 interrupted send repeated by the next flush)',
-               '37be052 (C12 stale schedule entry of a message enqueue() attempts itself)']
+               '37be052 (C12 stale schedule entry of a message enqueue() attempts itself)',
+               'c6ba4dd (C11 AUTH keyword without mechanisms)', '38dc11a (C11 non-ASCII SASL mechanism name)',
+               'f879e3b (C11 one SASL challenge too many)']
 
 ENGINES = [
     {'name': 'runner', 'path': 'vf/runner.py', 'serves_properties': [],
